@@ -37,7 +37,7 @@ COVERAGE_TARGETS = ['ctor:par', 'ctor:fn', 'ctor:rx', 'ctor:nested', 'ctor:skipf
                     'set:ref:free:ok', 'set:ref:linked:ok', 'set:plain:linked:ok', 'srcSet:synced:ok', 'srcSet:sync:ValueError',
                     'srcSet:quiet:ok', 'ctxEnter:ok', 'ctxExit:ok', 'update:ok', 'setCls:ok', 'ctxEnter:form:kw', 'ctxEnter:form:dict', 'ctxEnter:form:pos',
                     'update:form:kw', 'update:form:dict', 'update:form:pos',
-                    'shared:ctor-link', 'shared:set:ref:ok', 'shared:set:plain:ok', 'shared:update:ok', 'shared:ctxEnter:ok']
+                    'hook:fired', 'lock:ok', 'falsy-sources', 'hooks', 'shared:ctor-link', 'shared:set:ref:ok', 'shared:set:plain:ok', 'shared:update:ok', 'shared:ctxEnter:ok']
 PROP = 'C08'
 
 run_impl = R.run_impl
@@ -104,7 +104,7 @@ def directed():
             if two:
                 targets.append({'params': [R.P(), R.P(lo=0, hi=10)], 'ctor': [[0, R.par(0, 0)], [1, R.fn([[0, 0]], 0, lk == 'rx')]]})
             ops = ops + [dict(o) for o in follow(slot, other)[a]] + [dict(o) for o in follow(slot, other)[b]] + [dict(o) for o in probe]
-            yield R.mk_case(PROP, src0, targets, ops)
+            yield R.mk_case(PROP, src0, targets, ops, falsy_src=(npi % 3 == 0))
 
 
 def directed_constants():
@@ -125,11 +125,40 @@ def directed_constants():
             yield R.mk_case(PROP, src0, [{'params': pds, 'ctor': ctor}], ops)
 
 
+def directed_watchers_and_locks():
+    """user watchers that assign a plain value to a linked sibling (during a plain assignment, an update, and inside
+    the flush of a sync — with the sibling outside and inside the batch being synced), parameters made constant
+    on the instance only and then synced, sources whose truth value is False"""
+    src0 = [[1, 2], [3, 4]]
+    two = [dict(p) for p in R.STD]
+    for late, falsy, b_src in itertools.product((False, True), (False, True), ((1, 0), (0, 0))):
+        links = [[0, R.par(0, 0)], [1, R.par(*b_src)]]
+        ctor = [] if late else links
+        pre = [{'op': 'set', 't': 0, 'p': p, 'rhs': r} for p, r in links] if late else []
+        for k in (7, 50):
+            hooks = [{'t': 0, 'a': 0, 'b': 1, 'k': k}]
+            tails = {
+                'sync': [{'op': 'srcSet', 's': 0, 'i': 0, 'v': 4}],
+                'set': [{'op': 'set', 't': 0, 'p': 0, 'rhs': R.lit(5)}],
+                'update': [{'op': 'update', 't': 0, 'kvs': [[0, R.fn([[1, 1]], 0)], [2, R.cont(R.lit(1), R.lit(2))]], 'form': 'kw'}],
+            }
+            for name, ops in tails.items():
+                probe = [{'op': 'srcSet', 's': s, 'i': i, 'v': v, 'note': 'probe'} for s, i, v in ((1, 0, 5), (0, 0, 6), (1, 0, 2), (0, 1, 0))]
+                yield R.mk_case(PROP, src0, [{'params': two, 'ctor': ctor}], pre + ops + probe, hooks=hooks, falsy_src=falsy)
+        # constant on the instance only, then synced (alone, and together with a sibling link of the same source)
+        for sib in (False, True):
+            ops = pre + [{'op': 'lock', 't': 0, 'p': 0}] + ([{'op': 'set', 't': 0, 'p': 1, 'rhs': R.fn([[0, 0]], 1)}] if sib else []) + \
+                  [{'op': 'srcSet', 's': 0, 'i': 0, 'v': 4}, {'op': 'set', 't': 0, 'p': 0, 'rhs': R.lit(9), 'note': 'rebind-locked'},
+                   {'op': 'srcSet', 's': 0, 'i': 0, 'v': 5}, {'op': 'set', 't': 0, 'p': 0, 'rhs': R.lit(5)},
+                   {'op': 'srcSet', 's': 0, 'i': 0, 'v': 2}, {'op': 'srcSet', 's': 1, 'i': 0, 'v': 1}]
+            yield R.mk_case(PROP, src0, [{'params': two, 'ctor': ctor}], ops, falsy_src=falsy)
+
+
 def cases(rng, tier, worker, nworkers):
     if worker == 0:
         for f in sorted(glob.glob(os.path.join(os.path.dirname(__file__), '..', '..', 'corpus', 'C08', '*.json'))):
             yield dict(json.load(open(f))['case'], prop=PROP)
-    for i, c in enumerate(itertools.chain(directed_constants(), directed())):
+    for i, c in enumerate(itertools.chain(directed_constants(), directed_watchers_and_locks(), directed())):
         if i % nworkers == worker:
             yield c
     n = 1400 if tier == 'quick' else 60000 // nworkers
@@ -141,7 +170,7 @@ def classify(case, impl, fail):
     why = str(fail.get('why', ''))
     if fail.get('kind') != 'counterexample':
         return None
-    for key in ('failed-sync-leaves-valid-links-stale',):
+    for key in ('failed-sync-leaves-valid-links-stale', 'watcher-assignment-during-own-sync-keeps-link'):
         if why.startswith(f'finding:{key}:'):
             return key
     return None
